@@ -727,6 +727,15 @@ impl ExecutionState {
                 return true;
             }
 
+            // While `cleanup` tears down the tasks of an execution that was stopped early (the
+            // scheduler returned `None`, or a `ContinueAfter` step bound was hit), the destructors
+            // of values still alive on their stacks (e.g. a `MutexGuard`) can reach this point.
+            // There is nothing left to schedule, and `current_task` no longer names a task that
+            // could yield, so just let the destructor carry on.
+            if state.in_cleanup && state.current_task == ScheduledTask::Stopped {
+                return false;
+            }
+
             debug_assert!(
                 matches!(state.current_task, ScheduledTask::Some(_) | ScheduledTask::Finished)
                     && state.next_task == ScheduledTask::None,
